@@ -49,14 +49,14 @@ func genOpt(r *Rng) Opt {
 	return o
 }
 
-var badKinds = []string{"msg", "fR", "fS", "fA", "sL", "zS", "smA", "smR", "udA", "udR", "ncA", "ncR", "tS", "lS", "nS", "tK", "nK", "bPh", "tor", "fS", "msg", "fR", "noR", "noA", "lK", "noRB", "torR", "pfx"}
+var badKinds = []string{"msg", "fR", "fS", "fA", "sL", "zS", "smA", "smR", "udA", "udR", "ncA", "ncR", "tS", "lS", "nS", "tK", "nK", "bPh", "tor", "fS", "msg", "fR", "noR", "noA", "lK", "noRB", "torR", "pfx", "xdom"}
 
 var secondDamage = []string{"tK", "nK", "tS", "lS", "nS", "sL", "fS", "msg", "sL", "tK"}
 
 // subtleKinds: entries that satisfy the group equation, or part of it, and are
 // rejected by exactly one rule. When such an entry is the only bad one of its
 // chunk, a batch path that has lost that rule reports it valid.
-var subtleKinds = []string{"pfx", "noR", "noA", "noRB", "torR", "lK", "phLen", "smRv", "tor0", "tor", "sL", "pfx", "smRv", "ncR"}
+var subtleKinds = []string{"xdom", "pfx", "noR", "noA", "noRB", "torR", "lK", "phLen", "smRv", "tor0", "tor", "sL", "pfx", "smRv", "ncR"}
 
 func genSubtle(r *Rng, o Opt) Entry {
 	e := genBad(r, o)
@@ -176,7 +176,7 @@ func genEntries(r *Rng, n int, o Opt) (es []Entry, profile string) {
 		// satisfies the equation with one term removed): if that term has
 		// dropped out of the equation for this chunk, nothing in it objects
 		profile = "uniformbad"
-		k := []string{"noR", "noA", "noRB", "torR", "smRv", "tor0", "pfx", "lK", "sL", "noR"}[r.Intn(10)]
+		k := []string{"noR", "noA", "noRB", "torR", "smRv", "tor0", "pfx", "lK", "sL", "noR", "xdom", "xdom"}[r.Intn(12)]
 		lo, hi := 0, n
 		if n > 64 && r.Chance(3, 4) {
 			lo = 64 * (1 + r.Intn(n/64))
@@ -191,8 +191,12 @@ func genEntries(r *Rng, n int, o Opt) (es []Entry, profile string) {
 				lo -= 64
 			}
 		}
+		sameP := r.Intn(1 << 16)
 		for i := lo; i < hi; i++ {
 			es[i] = Entry{K: k, P: r.Intn(1 << 16), Q: r.Intn(1<<16) &^ 1, Key: es[i].Key, ML: es[i].ML}
+			if k == "xdom" {
+				es[i].P = sameP // the same foreign domain throughout
+			}
 		}
 	case 8:
 		// exactly as many up-front rejections (S >= L) in the first chunk as
@@ -610,7 +614,7 @@ func enumBatchFaults(prop string) []*Case {
 func enumBorderRepeats(prop string) []*Case {
 	var out []*Case
 	seed := uint64(0xB0DE)
-	kinds := []string{"tK", "nK", "tS", "nS", "lS", "udA", "udR", "smA", "smR", "ncA", "lK", "sL", "fS", "msg", "tor", "tor0", "smRv", "noRB", "torR", "pfx", "mix", "ok"}
+	kinds := []string{"tK", "nK", "tS", "nS", "lS", "udA", "udR", "smA", "smR", "ncA", "lK", "sL", "fS", "msg", "tor", "tor0", "smRv", "noRB", "torR", "pfx", "xdom", "mix", "ok"}
 	for _, border := range []int{63, 127} {
 		n := border + 5
 		for _, zip := range []bool{false, true} {
@@ -633,6 +637,52 @@ func enumBorderRepeats(prop string) []*Case {
 						op.Entries[border+1] = e
 					}
 					out = append(out, &Case{Prop: prop, Check: "batch", Op: op})
+				}
+			}
+		}
+	}
+	return out
+}
+
+// enumUniformForgeries: under every kind of option set, a whole chunk (the only
+// one, a full one, the short last one) made of the SAME forgery - each entry
+// satisfies the batch equation with exactly one ingredient removed (a term, a
+// rule, the signing domain) - so that a batch path that has lost that
+// ingredient for this option set finds nothing in the chunk that objects.
+func enumUniformForgeries() []*Case {
+	var out []*Case
+	seed := uint64(0x0F0F)
+	type kp struct {
+		k string
+		p int
+	}
+	var kinds []kp
+	for _, k := range []string{"noR", "noA", "noRB", "torR", "smRv", "tor0", "pfx", "lK", "sL"} {
+		kinds = append(kinds, kp{k, 3})
+	}
+	for p := 0; p < 8; p++ {
+		kinds = append(kinds, kp{"xdom", p})
+	}
+	opts := []Opt{{}, {Ctx: 1}, {Ctx: 255, CK: 3}, {Hash: 1}, {Hash: 1, Ctx: 9}}
+	for _, o := range opts {
+		for _, zip := range []bool{false, true} {
+			for _, k := range kinds {
+				for _, shape := range [][3]int{{4, 0, 4}, {64, 0, 64}, {68, 64, 68}} {
+					seed++
+					if shape[0] == 64 && zip {
+						continue // forging is the expensive part of a case; the full chunk once per option set
+					}
+					oo := o
+					oo.Zip = zip
+					op := &Op{Fn: "VerifyBatch", Seed: mix64(seed), Opt: oo, Rd: &DevPlan{CSeed: mix64(seed ^ 7)}}
+					op.Entries = make([]Entry, shape[0])
+					for i := range op.Entries {
+						op.Entries[i] = Entry{K: "ok", Key: i % 3, ML: i % 13}
+						if i >= shape[1] && i < shape[2] {
+							op.Entries[i] = Entry{K: k.k, P: k.p, Q: int(seed%97) &^ 1, Key: i % 3, ML: i % 13}
+						}
+					}
+					out = append(out, &Case{Prop: "C06", Check: "batch", Op: op})
 				}
 			}
 		}
